@@ -171,10 +171,7 @@ theorem references_rangeOK_partial (utf16 : Bool) (doc : Txt) (j : Journal) (c :
     have := sortAndDedup_sub _ _ hh
     simp only [List.mem_map, Prod.mk.injEq] at this
     obtain ⟨h', hm, rfl, rfl⟩ := this
-    apply hit_rangeOK ht _ hg
-    rcases referenceHits_node hm with h1 | h1
-    · exact Or.inl h1
-    · exact Or.inr (Or.inr (Or.inr h1))
+    exact hit_rangeOK ht (referenceHits_node hm) hg
 
 theorem rename_rangeOK_partial (utf16 : Bool) (doc : Txt) (j : Journal) (c : Cur)
     (h : Hit) (x : LRange) (ht : TreePositionsSound (unitOf utf16) doc j = true)
@@ -182,18 +179,36 @@ theorem rename_rangeOK_partial (utf16 : Bool) (doc : Txt) (j : Journal) (c : Cur
     rangeOK doc (toN x) = true :=
   references_rangeOK_partial utf16 doc j c true h x ht hh hg
 
-/-- Forced guard for Rename / References with declaration / workspace symbols: the edit for the
-    `account` directive's name runs to 4294967295:4294967295 (a client that applies it deletes the
-    rest of the document). -/
-theorem rename_directive_counterexample :
+/-- Rename on a declared account (code after the references/rename repair b9a9245, which derives
+    the end of a name from the name): both edits are well-formed and cover the name. -/
+example :
     let doc := "account a:b\n2024-01-15 x\n    a:b  1\n".toList
     let acct : Account := ⟨[97, 58, 98], ⟨⟨3, 5, 29⟩, ⟨3, 8, 32⟩⟩⟩
     let p : Posting := ⟨.none, acct, none, none, none, [], [], .none, ⟨⟨3, 5, 29⟩, ⟨3, 11, 35⟩⟩⟩
     let tx : Transaction := ⟨⟨2024, 1, 15, ⟨⟨2, 1, 12⟩, ⟨2, 11, 22⟩⟩⟩, none, .none, [], [120], [], [],
       [p], [], [], ⟨⟨2, 1, 12⟩, ⟨4, 1, 36⟩⟩⟩
     let j : Journal := ⟨[tx], [.account ⟨[97, 58, 98], ⟨⟨1, 9, 8⟩, Pos.zero⟩⟩ [] [] [] ⟨⟨1, 1, 0⟩, ⟨2, 1, 12⟩⟩], [], []⟩
-    ((rename j ⟨2, 5⟩).map fun e => toN e.2) = [⟨0, 8, 4294967295, 4294967295⟩, ⟨2, 4, 2, 7⟩] ∧
-    ((rename j ⟨2, 5⟩).map fun e => rangeOK doc (toN e.2)) = [false, true] := by decide
+    ((rename j ⟨2, 5⟩).map fun e => toN e.2) = [⟨0, 8, 0, 11⟩, ⟨2, 4, 2, 7⟩] ∧
+    ((rename j ⟨2, 5⟩).map fun e => covers doc (toN e.2) "a:b".toList) = [true, true] ∧
+    ((rename j ⟨2, 5⟩).map fun e => hitGuard false doc e.1) = [true, true] := by decide
+
+/-- A `nameRange` is a rune column plus a UTF-16 length.  For a posting's account only blanks
+    and a status mark can precede the name, so the mix is harmless: `a😀:b` is covered exactly
+    even while columns count runes (whereas the account range stored in the tree, which hover
+    still uses, ends one unit early). -/
+example :
+    let doc := "2024-01-15 x\n    a😀:b  1\n".toList
+    let acct : Account := ⟨[97, 240, 159, 152, 128, 58, 98], ⟨⟨2, 5, 17⟩, ⟨2, 9, 24⟩⟩⟩
+    covers doc (toN (astRangeToProtocol (accountNameRange acct))) "a😀:b".toList = true ∧
+    slice doc (toN (astRangeToProtocol acct.range)) = some "a😀:".toList := by decide
+
+/-- Forced guard "the range has an End" for workspace symbols: the symbol of a declared account
+    is sent with the end 4294967295:4294967295. -/
+theorem workspaceSymbol_directive_counterexample :
+    let doc := "account a:b\n".toList
+    let j : Journal := ⟨[], [.account ⟨[97, 58, 98], ⟨⟨1, 9, 8⟩, Pos.zero⟩⟩ [] [] [] ⟨⟨1, 1, 0⟩, ⟨2, 1, 12⟩⟩], [], []⟩
+    ((workspaceSymbols j).map fun e => toN e.2) = [⟨0, 8, 4294967295, 4294967295⟩] ∧
+    ((workspaceSymbols j).map fun e => rangeOK doc (toN e.2)) = [false] := by decide
 
 /-- Document symbols: `Range` and `SelectionRange` of every outline entry. -/
 theorem documentSymbol_rangeOK_partial (utf16 : Bool) (doc : Txt) (j : Journal)
@@ -210,10 +225,7 @@ theorem workspaceSymbol_rangeOK_partial (utf16 : Bool) (doc : Txt) (j : Journal)
     rangeOK doc (toN x) = true := by
   simp only [workspaceSymbols, List.mem_map, Prod.mk.injEq] at hh
   obtain ⟨h', hm, rfl, rfl⟩ := hh
-  apply hit_rangeOK ht _ hg
-  rcases workspaceSymbolHits_node hm with h1 | h1
-  · exact Or.inl h1
-  · exact Or.inr (Or.inr (Or.inr h1))
+  exact hit_rangeOK ht (workspaceSymbolHits_node hm) hg
 
 /-- Document links, code as pinned (range of the whole directive). -/
 theorem documentLink_rangeOK_partial (utf16 : Bool) (doc : Txt) (j : Journal) (fx : Fixes)
@@ -316,7 +328,7 @@ example :
     let doc := "2024-01-15 Shop\n".toList
     let tx : Transaction := ⟨⟨2024, 1, 15, ⟨⟨1, 1, 0⟩, ⟨1, 11, 10⟩⟩⟩, none, .none, [], [83, 104, 111, 112],
       [], [], [], [], [], ⟨⟨1, 1, 0⟩, ⟨2, 1, 16⟩⟩⟩
-    let h : Hit := ⟨.payee, payeeOf tx, estimatePayeeRange tx (payeeOf tx)⟩
+    let h : Hit := ⟨.payee, payeeOf tx, estimatePayeeRange tx (payeeOf tx), true⟩
     hitGuard false doc h = true ∧ lexSound u16w doc h.rng "Shop".toList = true := by decide
 
 /-- `; café, k:v`: parseTags adds the BYTE offset of `k` in the comment text (8) to the rune
